@@ -311,7 +311,25 @@ AppLam == UNION { { << Pre,
                     : as \in {a \in AArgSets : AOk(l, a)}, cx \in ACtxs }
                   : l \in ALams }
 
+-----------------------------------------------------------------------------
+(* reads: the operands of one call read the function's parameters several times, plainly and inside    *)
+(* nested operands (where a parameter's LAST use lets the compiler move it out of its slot).  The      *)
+(* function is called directly (inlined at the call site) and through apply (its own compiled body).   *)
+ROps == { V("x"), V("y"), I(7), P("cdr", <<V("x")>>), P("car", <<V("x")>>), P("length", <<V("x")>>),
+          P("+", <<V("y"), I(1)>>), P("cons", <<V("y"), V("x")>>) }
+RNum == { V("y"), I(7), P("car", <<V("x")>>), P("length", <<V("x")>>), P("+", <<V("y"), I(1)>>), P("*", <<V("y"), I(2)>>) }
+RBodies == { P("list", <<a, b, c>>) : a \in ROps, b \in ROps, c \in ROps }
+            \cup { P("+", <<a, b, c>>) : a \in RNum, b \in RNum, c \in RNum }
+            \cup { P("cons", <<a, P("list", <<b, c>>)>>) : a \in {V("x"), V("y")}, b \in ROps, c \in {V("x"), P("cdr", <<V("x")>>), V("y")} }
+RArgs == <<C(ListV(<<IntV(1), IntV(2), IntV(3)>>)), I(5)>>
+Reads == { << <<Def("k", Lam(<<"x", "y">>, "", b))>>,
+              <<Emit1(App(V("k"), RArgs)),
+                Emit1(P("apply", <<V("k"), P("list", RArgs)>>)),
+                Emit1(P("map", <<V("k"), P("list", <<RArgs[1], RArgs[1]>>), P("list", <<I(5), I(6)>>)>>))>> >>
+           : b \in RBodies }
+
 Programs == CASE FAMILY = "calls" -> Calls
+              [] FAMILY = "reads" -> Reads
               [] FAMILY = "wide" -> Wide
               [] FAMILY = "applam" -> AppLam
               [] FAMILY = "store" -> Store
